@@ -124,3 +124,201 @@ def soft_hook(world, spec, oi, op, q, rec):
         if r == "sat":
             _add(rec, "soft_outcome", "returned values violate soft #%d %s although it could have been honoured together with the "
                  "hard constraints and all satisfied soft constraints" % (ri, rec["softs"][ri][2]), op, oi, returned=after)
+
+
+def _in_domain(x, signed, ranges):
+    w = x.size()
+    lo_t = -(1 << (w - 1)) if signed else 0
+    hi_t = (1 << (w - 1)) - 1 if signed else (1 << w) - 1
+    terms = []
+    for lo, hi in ranges:
+        if lo > hi:
+            continue
+        lo2, hi2 = max(lo, lo_t), min(hi, hi_t)
+        if lo2 > hi2:
+            continue
+        a, b = z3.BitVecVal(lo2, w), z3.BitVecVal(hi2, w)
+        terms.append(z3.And(x >= a, x <= b) if signed else z3.And(z3.UGE(x, a), z3.ULE(x, b)))
+    return z3.Or(*terms) if terms else z3.BoolVal(False)
+
+
+def bounds_hook(world, spec, oi, op, q, rec):
+    """C14: the inferred domain of every random field contains every value the field takes in some solution"""
+    if rec["exc"] is not None:
+        return
+    from . import e1
+    env = rec["env"]
+    ref = rec["ref"]
+    fm_path = rec["fm_path"]
+    seen = set()
+    nchecked = 0
+
+    def check_field(f, ranges, where):
+        nonlocal nchecked
+        path = fm_path.get(id(f))
+        if path is None:
+            return
+        nm = R.vname(path)
+        if nm in seen or nm not in env.vars:
+            return
+        seen.add(nm)
+        node = None
+        try:
+            node = P.get_node(world.shadow, path) if path[-1] != "size" else None
+        except Exception:
+            pass
+        signed = bool(node and node.get("signed"))
+        x = env.vars[nm]
+        nchecked += 1
+        r, m = q.check(ref, z3.Not(_in_domain(x, signed, ranges)))
+        if r == "sat":
+            v = m.eval(x, model_completion=True).as_long()
+            if signed and v >> (x.size() - 1):
+                v -= 1 << x.size()
+            _add(rec, "bound_excludes", "the inferred value range %s of %s (%s) excludes the feasible value %d" % (ranges[:6], nm, where, v),
+                 op, oi, field=nm, value=v, domain=ranges[:8], witness=e1.model_values(m, env.vars))
+    for inst in rec["instances"]:
+        for t in inst.trace:
+            if t[0] == "swizzle":
+                for fid, (f, ranges) in t[2].items():
+                    if getattr(f, "is_used_rand", False) or True:
+                        check_field(f, ranges, "rand set")
+    for call in e1._state["calls"]:
+        for f, ranges in call["unconstrained"]:
+            if ranges is None:
+                continue
+            path = fm_path.get(id(f))
+            if path is None:
+                continue
+            nm = R.vname(path)
+            if nm not in env.vars:
+                continue        # not random in this call
+            # a field no constraint mentions ranges over its whole type (enum: all enumerators)
+            check_field(f, ranges, "unconstrained")
+    rec["summary"]["bounds_checked"] = nchecked
+
+
+def prepost_hook(world, spec, oi, op, q, rec):
+    """C17: pre_randomize / post_randomize exactly once on every object that is random in the call, before the first solver
+    activity / after the last; post sees final values"""
+    events = list(world.ns.get("EVENTS", []))
+    total = sum(len(i.trace) for i in rec["instances"])
+    # objects with hooks, by identity
+    objs = {}
+
+    def walk(node, path):
+        if node["k"] == "o":
+            cs = P.cls_spec(world.prog, node["cls"]) if node.get("cls") else None
+            if cs is not None and (cs.get("pre_randomize") is not None or cs.get("post_randomize") is not None):
+                try:
+                    objs[id(world.real(path))] = (path, node)
+                except Exception:
+                    pass
+            for fn, ch in node["fields"].items():
+                walk(ch, tuple(path) + (fn,))
+        elif node["k"] == "l":
+            for i, ch in enumerate(node["elems"]):
+                walk(ch, tuple(path) + (i,))
+    walk(world.shadow, ())
+    ok_call = rec["exc"] is None
+    counts = {}
+    for ev in events:
+        hook, oid, snap, now = ev
+        counts[(oid, hook)] = counts.get((oid, hook), 0) + 1
+        if oid not in objs:
+            _add(rec, "hook_count", "%s invoked on an object outside the randomized tree" % hook, op, oi)
+            continue
+        path, node = objs[oid]
+        if hook == "pre_randomize" and now != 0:
+            _add(rec, "hook_order", "pre_randomize of %s ran after solver activity had started (%d trace events)" % (R.vname(path), now), op, oi)
+        if hook == "post_randomize":
+            if now != total:
+                _add(rec, "hook_order", "post_randomize of %s ran before the solver was finished (%d of %d trace events)" % (R.vname(path), now, total), op, oi)
+            after = rec["summary"].get("after") or {}
+            for fname, v in snap:
+                k = R.vname(tuple(path) + (fname,))
+                if ok_call and k in after and after[k] != v:
+                    _add(rec, "hook_order", "post_randomize of %s saw %s=%d but the final value is %d" % (R.vname(path), fname, v, after[k]), op, oi)
+    for oid, (path, node) in objs.items():
+        cs = P.cls_spec(world.prog, node["cls"])
+        used = bool(node.get("used"))
+        for hook in ("pre_randomize", "post_randomize"):
+            if cs.get(hook) is None:
+                continue
+            if hook == "post_randomize" and not ok_call:
+                continue
+            n = counts.get((oid, hook), 0)
+            exp = 1 if used else 0
+            if n != exp:
+                _add(rec, "hook_count", "%s of %s (random in the call: %s) ran %d time(s), expected %d" % (hook, R.vname(path), used, n, exp), op, oi)
+    rec["summary"]["hook_events"] = len(events)
+
+
+def _term_vars(z):
+    out = set()
+    todo = [z]
+    seen = set()
+    while todo:
+        t = todo.pop()
+        if t.get_id() in seen:
+            continue
+        seen.add(t.get_id())
+        if z3.is_const(t) and t.decl().kind() == z3.Z3_OP_UNINTERPRETED:
+            out.add(str(t))
+        else:
+            todo.extend(t.children())
+    return out
+
+
+def order_hook(world, spec, oi, op, q, rec):
+    """C20 (iv): ordered groups are swizzled one after another in the declared order inside one solver context; a swizzle
+    node is kept iff the whole system stayed SAT with it; the final check is SAT"""
+    if rec["exc"] is not None:
+        return
+    from . import e1
+    n_ordered = 0
+    for inst in rec["instances"]:
+        fs, sw = phases(inst)
+        if sw is None:
+            continue
+        marker = inst.trace[sw]
+        order = marker[3]
+        var2fm = {}
+        for t in inst.trace:
+            if t[0] == "var":
+                ent = e1._state["node2fm"].get(id(t[1]))
+                if ent is not None:
+                    var2fm[str(t[1].z)] = ent[1]
+        group_of = {}
+        if order is not None:
+            n_ordered += 1
+            for gi, grp in enumerate(order):
+                for f in grp:
+                    group_of[id(f)] = gi
+        last_group = -1
+        pending = None
+        last_sat = None
+        events = inst.trace[sw + 1:]
+        for i, t in enumerate(events):
+            if t[0] == "assume":
+                pending = t[1]
+                vs = _term_vars(t[1].z)
+                gs = set(group_of.get(id(var2fm[v]), None) for v in vs if v in var2fm)
+                gs.discard(None)
+                if order is not None and gs:
+                    g = min(gs)
+                    if g < last_group:
+                        _add(rec, "order_violation", "a randomising constraint of ordered group %d was tried after group %d" % (g, last_group), op, oi)
+                    last_group = max(last_group, max(gs))
+            elif t[0] == "sat":
+                last_sat = (t[1] == M.MirrorBoolector.SAT, set(id(n) for n in t[2]))
+            elif t[0] == "assert":
+                if last_sat is None or not last_sat[0] or id(t[1]) not in last_sat[1]:
+                    _add(rec, "order_violation", "a randomising constraint was asserted without a preceding SAT check that included it", op, oi)
+        sats = [t for t in inst.trace if t[0] == "sat"]
+        if sats and sats[-1][1] != M.MirrorBoolector.SAT:
+            _add(rec, "order_violation", "the final solver check of a successful call was not SAT", op, oi)
+        if order is not None:
+            # every field named in the ordering that is random appears in exactly one group, groups respect the directives
+            rec["summary"].setdefault("order_groups", []).append([[getattr(f, "name", "?") for f in g] for g in order])
+    rec["summary"]["ordered_randsets"] = n_ordered
